@@ -93,6 +93,16 @@ def run_instances(prop, mod_name, instances, ctx, level="model_checking", assump
                     for prof in ("dev", "release"):
                         outs[prof] = replay.run(cmd, case, profile=prof)
                 confirmed = bool(cmd) and inst.confirm(v, outs)
+                if cmd and not confirmed and hasattr(inst, "amplify"):
+                    # behaviour the language leaves unspecified (e.g. order of equal keys after an unstable sort) may need a larger
+                    # instance of the same history to show up in the real build: replay the amplified history natively
+                    amp = inst.amplify(v)
+                    if amp is not None:
+                        cmd2, case2 = amp
+                        outs2 = {prof: replay.run(cmd2, case2, profile=prof) for prof in ("dev", "release")}
+                        if inst.confirm(v, outs2):
+                            confirmed, cmd, case, outs = True, cmd2, case2, outs2
+                            v = dict(v, desc=v["desc"] + " [reproduced natively on the amplified history]")
                 h = hashlib.sha1(json.dumps(v["inputs"], sort_keys=True, default=str).encode()).hexdigest()[:8]
                 path = replay.save_case(prop, f"{inst.name}-{v['role'].replace(':', '_').replace('/', '_')[:60]}-{h}", cmd, case) if cmd else None
                 viols.append({"role": v["role"], "desc": f"[{inst.name}] {v['desc']} inputs={json.dumps(v['inputs'], default=str)[:400]} native={json.dumps(outs)[:300]}",
